@@ -307,7 +307,7 @@ func suiteText(tier string, seed uint64, model string) *Report {
 	}
 	var preqs []string
 	for _, np := range nps {
-		preqs = append(preqs, "jppath\t"+np.spec)
+		preqs = append(preqs, "jppath\t"+np.spec, "jppathb\t"+np.spec)
 	}
 	pans, err := RunModel(model, preqs)
 	if err != nil {
@@ -318,11 +318,17 @@ func suiteText(tier string, seed uint64, model string) *Report {
 	for i, np := range nps {
 		rep.Evaluations++
 		got := hx([]byte(np.x.String()))
-		if got != pans[i] {
-			rep.Add(Disagreement{Case: np.spec, Where: "Expr.String (normal path)", Kind: "impl-vs-model:path-print", Impl: got, Model: pans[i]})
+		if got != pans[2*i] {
+			rep.Add(Disagreement{Case: np.spec, Where: "Expr.String (normal path)", Kind: "impl-vs-model:path-print", Impl: got, Model: pans[2*i]})
+		}
+		rep.Evaluations++
+		gotb := hx([]byte(np.x.BracketString()))
+		if gotb != pans[2*i+1] {
+			rep.Add(Disagreement{Case: np.spec, Where: "Expr.BracketString (normal path)", Kind: "impl-vs-model:path-print", Impl: gotb, Model: pans[2*i+1]})
 		}
 		t := np.x.String()
 		ptexts[t] = true
+		ptexts[np.x.BracketString()] = true
 		// spellings the printer does not produce: spaces inside brackets, the other quote
 		ptexts[strings.ReplaceAll(strings.ReplaceAll(t, "[", "[ "), "]", " ]")] = true
 		ptexts[strings.ReplaceAll(t, "['", "[\"")] = true
